@@ -56,9 +56,9 @@ type World struct {
 	mustAdv              map[*ssa.Function]bool
 	mustAdvLeak          map[*ssa.Function]*ssa.BasicBlock
 	constMaps            map[*ssa.Global]*constMapInfo
-	tokInit              *concr
 	cursorStores         map[string][2]int
-	tokInitErr           string
+	pkgInits             map[string]*concr
+	pkgInitErr           map[string]string
 }
 
 func corePkg(path string) bool {
